@@ -58,6 +58,26 @@ theorem showErrors_ok (es : Errors) (sources : List (String × Text)) (color : B
   obtain ⟨r, hr⟩ := formatGroups_ok color sources es h
   exact ⟨joinLines r ++ ['\n'], by simp [showErrors, formatErrors, hr]⟩
 
+theorem processLoop_no_fuel {σ : Type} (stop : Option String) :
+    ∀ (ps : List (Pass σ)) (s : σ) (deferred : Errors),
+      processLoop stop ps s deferred ≠ .outOfFuel := by
+  intro ps
+  induction ps with
+  | nil =>
+    intro s deferred h
+    simp only [processLoop] at h
+    split at h
+    · cases h
+    · split at h <;> cases h
+  | cons p ps ih =>
+    intro s deferred h
+    simp only [processLoop] at h
+    split at h
+    · cases h
+    · split at h
+      · cases h
+      · exact ih _ _ h
+
 /-! ### locations -/
 
 theorem produced_inFile (lines : List Text) (l : Loc) (h : Produced lines l) : InFile l lines := by
